@@ -99,15 +99,16 @@ theorem call_stage_invariant (w : World V) (n : Nat) (first : Nat → Nat) (step
     Inv w (run w (Net.init n first) steps) :=
   (Inv.init w n first).run steps
 
-/-- The counting part spelled out: the seven stage counters of an issued call add up to one - it is in
+/-- The counting part spelled out: the stage counters of an issued call (the seven stages, plus "the reply came
+after the deadline and was ignored") add up to one - it is in
 exactly one stage - and the answers the exporter logged for it are as many as there are replies in
 flight plus completions (so nothing else in any queue can complete it). -/
 theorem call_in_exactly_one_stage (w : World V) (n : Nat) (first : Nat → Nat) (steps : List (Step V))
     (a : Nat) (r : CallRec V) (hr : r ∈ ((run w (Net.init n first) steps).cl a).issued) :
     let net := run w (Net.init n first) steps
     let s := stages net a r
-    s.callUp + s.callDown + s.dropped + s.executing + s.replyUp + s.replyDown + s.completed = 1 ∧
-    answersFor net a r = s.replyUp + s.replyDown + s.completed ∧
+    s.callUp + s.callDown + s.dropped + s.executing + s.replyUp + s.replyDown + s.completed + s.late = 1 ∧
+    answersFor net a r = s.replyUp + s.replyDown + s.completed + s.late ∧
     invocationsFor net a r = s.executing + resultsFor net a r := by
   have inv := call_stage_invariant w n first steps
   exact ⟨inv.tok a r hr, inv.ans_cnt a r hr, inv.inv_cnt a r hr⟩
@@ -139,6 +140,8 @@ theorem step_n (w : World V) (net : Net V) (st : Step V) : (step w net st).n = n
     cases takeExec _ (net.cl _).exec with
     | none => rfl
     | some pr => rfl
+  · unfold expireStep
+    cases pLookup (net.cl _).pending _ <;> rfl
 
 theorem run_n (w : World V) (net : Net V) (steps : List (Step V)) : (run w net steps).n = net.n := by
   induction steps generalizing net with
@@ -224,13 +227,24 @@ theorem result_from_step (w : World V) (n : Nat) (first : Nat → Nat) (steps : 
   · simp [Net.init, Client.init] at g
   · exact g so nr res rfl
 
+/-- A completion by `TimeOut` comes from an `expire` step of the schedule for exactly that call. -/
+theorem timedOut_from_expire_step (w : World V) (n : Nat) (first : Nat → Nat) (steps : List (Step V))
+    (a : Nat) (s : Nat) (h : (s, Outcome.timedOut) ∈ ((run w (Net.init n first) steps).cl a).completions) :
+    Step.expire a s ∈ steps := by
+  rcases run_completions w steps _ a _ h with g | g | g
+  · simp [Net.init, Client.init] at g
+  · simp [Outcome.isTimeout] at g
+  · exact g
+
 /-- **C11 (headline).**  In every quiescent reachable state, for every call that client `a` made through a
 proxy agreeing with the object `o` exported by the attached client `px.dest` (hypotheses of
 `agreeing_proxy_accepted`): the function `f` bound to the selected method ran exactly once on the exporter,
 with the proxy's path, the selected interface, the member and EQUAL ARGUMENTS; it produced some result `res`
 given by a step of the schedule; the exporter answered exactly once; and the caller's Deferred fired exactly
 once with `outcomeOf (some m.sigOut) (replyOf w (result …  res))` - which `C11_returns_what_it_returned`
-spells out as the returned value or the mirrored RemoteError.  Not satisfiable by a model whose dispatch
+spells out as the returned value or the mirrored RemoteError - provided no `expire` step of the schedule let the
+call's deadline pass first (then the completion is `TimeOut`, exactly once, and the late reply is ignored: C08's
+first-wins rule, `Completed.outcome`).  Not satisfiable by a model whose dispatch
 refuses the call: the invocation list is non-empty. -/
 theorem C11_call_through_agreeing_proxy (w : World V) (n : Nat) (first : Nat → Nat) (steps : List (Step V))
     (hq : (run w (Net.init n first) steps).Quiescent)
@@ -245,7 +259,8 @@ theorem C11_call_through_agreeing_proxy (w : World V) (n : Nat) (first : Nat →
     (hnb : NotBuiltin i.name member)
     (himpl : o.resolveImpl i.name member = some f)
     (r : CallRec V) (hr : r ∈ ((run w (Net.init n first) steps).cl a).issued)
-    (hfrom : ∃ r0, proxyResolve (.viaProxy px kw member args) = .ok r0 ∧ r = { r0 with serial := r.serial }) :
+    (hfrom : ∃ r0, proxyResolve (.viaProxy px kw member args) = .ok r0 ∧ r = { r0 with serial := r.serial })
+    (hno : Step.expire a r.serial ∉ steps) :
     ∃ res,
       ((run w (Net.init n first) steps).cl px.dest).invocations.filter (invKey a r.serial) =
         [{ sender := some a, serial := r.serial, path := px.path, iface := i.name, member := member,
@@ -277,7 +292,16 @@ theorem C11_call_through_agreeing_proxy (w : World V) (n : Nat) (first : Nat →
   simp only [hck] at hinv
   have hansw := hc.answered
   have honce := hc.once
-  rw [hc.outcome, hans, hret] at honce
+  have hout : oc = outcomeOf r.retSig (replyOf w ans) := by
+    rcases hc.outcome with h | h
+    · exfalso
+      apply hno
+      apply timedOut_from_expire_step w n first steps a r.serial
+      have : (r.serial, oc) ∈ ((run w (Net.init n first) steps).cl a).completions.filter (complKey r.serial) := by
+        rw [honce]; exact List.mem_singleton.mpr rfl
+      rw [← h]; exact (List.mem_filter.mp this).1
+    · exact h
+  rw [hout, hans, hret] at honce
   rw [hans] at hansw
   rw [hdest] at hinv hansw
   rw [hpath, hmem, hargs] at hinv
@@ -430,6 +454,16 @@ example : exMixed.resolveImpl "org.t.B" "foo" = some ⟨1, none⟩ ∧
     exDeco.resolveImpl "org.t.C" "foo" = none := by
   decide
 
+/-- A deadline passes while the method is still executing; the reply that comes later is ignored (and does
+not disturb anything): exactly one completion, `TimeOut`. -/
+example :
+    let net := run exWorld (Net.init 3 (fun _ => 1))
+      [ .call 0 (.viaProxy exProxy none "echo" [7]), .toBus 0, .toClient 2 .deferred, .expire 0 1,
+        .resolve 2 0 (.value (.obj 8)), .toBus 2, .toClient 0 .deferred ]
+    (net.cl 0).completions = [(1, .timedOut)] ∧ (net.cl 0).late = [1] ∧ (net.cl 0).down = [] ∧
+    (net.cl 2).answers = [(some 0, 1, .result "v" 1 (.value (.obj 8)))] := by
+  decide
+
 /-- The model of the bus BEFORE the repair (Net/OldBus.lean), with a re-encoding that raises for the body
 of a `v` call (the implementation: argument `(1, 2**40)`, sent as `(ix)`, re-inferred as `ai`): the call
 of client 0 is issued to an attached client, the network becomes quiescent, and the call is neither
@@ -458,6 +492,7 @@ end Txdbus.Net
 #print axioms Txdbus.Net.agreeing_proxy_accepted
 #print axioms Txdbus.Net.issued_from_call_steps
 #print axioms Txdbus.Net.result_from_step
+#print axioms Txdbus.Net.timedOut_from_expire_step
 #print axioms Txdbus.Net.C11_call_through_agreeing_proxy
 #print axioms Txdbus.Net.C11_returns_what_it_returned
 #print axioms Txdbus.Net.prefix_model_violates
